@@ -47,10 +47,18 @@ def build_vdrive(scratch):
     out = os.path.join(scratch, "vdrive")
     t0 = time.time()
     # the harness module replaces github.com/jamf/regatta => /repo
-    gomod = open(os.path.join(HARNESS, "go.mod")).read()
+    harness = HARNESS
     if REPO != "/repo":
-        raise NoVerdict("VERIF_REPO other than /repo needs a go.mod rewrite")
-    p = subprocess.run(["go", "build", "-tags", "verif", "-o", out, "./cmd/vdrive"], cwd=HARNESS, env=GOENV,
+        # development aid (bin/mutest): build against a scratch worktree of jamf/regatta instead of /repo -
+        # a copy of the harness module whose replace directive names that worktree
+        harness = os.path.join(scratch, "harness")
+        shutil.copytree(HARNESS, harness)
+        gm = os.path.join(harness, "go.mod")
+        gomod = open(gm).read()
+        if "=> /repo" not in gomod:
+            raise NoVerdict("harness go.mod has no replace directive for /repo")
+        open(gm, "w").write(gomod.replace("=> /repo", "=> " + REPO))
+    p = subprocess.run(["go", "build", "-tags", "verif", "-o", out, "./cmd/vdrive"], cwd=harness, env=GOENV,
                        stdout=subprocess.PIPE, stderr=subprocess.STDOUT, text=True)
     if p.returncode != 0:
         raise NoVerdict("harness build failed (a tree that does not compile is not a property verdict):\n" + p.stdout[-4000:])
